@@ -824,7 +824,7 @@ def switch_battery(ctx, corr):
             cs = [(a, b) for a, b in cs if lo <= a <= b <= hi and as_long(a) <= as_long(b)]
             ok = all(b1 < a2 or b2 < a1 for (a1, b1), (a2, b2) in itertools.combinations(cs, 2))
             if not cs or not ok:
-                corr.count('skipped_ub')
+                corr.count('skipped_latitude')
                 continue
             positions = range(-1, len(cs) + 1) if ctx.thorough else sorted({-1, rng.randrange(0, len(cs) + 1)})
             for dpos in positions:
@@ -998,13 +998,14 @@ NAMES = ['x', 'y', 'z']
 
 class ScopeProg:
     """a program built together with its history of scope operations.  Every declaration carries a distinct id; a use
-    prints the id of the declaration it bound to (objects and enumerators by value, typedef names and tags by sizeof)."""
+    prints the id of the declaration it bound to (objects and enumerators by value, typedef names and tags by sizeof).
+    `items` is the program: ('raw', text) | ('use', indent, name) | ('fn', label id)."""
     def __init__(self, rng):
         self.rng = rng
         self.id = 0
-        self.ops = []          # model history
-        self.expect_kinds = []  # per use: ('use'|'usetag'|'label', name)
-        self.text = []
+        self.ops = []          # model history (driver syntax)
+        self.items = []
+        self.tagkind = {}
         self.stack = [{'var': set(), 'tag': set()}]
 
     def nid(self):
@@ -1012,22 +1013,20 @@ class ScopeProg:
         return self.id
 
     def emit(self, s, ind):
-        self.text.append('  ' * ind + s)
+        self.items.append(('raw', '  ' * ind + s))
 
-    def declare(self, ind, allow=('var', 'typedef', 'enum', 'tag'), name=None):
+    def declare(self, ind, allow=('var', 'typedef', 'enum', 'tag')):
         rng = self.rng
         kind = rng.choice(allow)
         ns = 'tag' if kind == 'tag' else 'var'
         free = [n for n in NAMES if n not in self.stack[-1][ns]]
-        if name is not None:
-            free = [name] if name in free else []
         if not free:
             return
         n = rng.choice(free)
         i = self.nid()
         self.stack[-1][ns].add(n)
         if kind == 'var':
-            st = rng.choice(['', '', 'static ']) if len(self.stack) > 1 else rng.choice(['', 'static '])
+            st = rng.choice(['', '', 'static '])
             self.emit(f'{st}int {n} = {i};', ind)
             self.ops.append(f'var {n} {i}')
         elif kind == 'typedef':
@@ -1038,8 +1037,9 @@ class ScopeProg:
             self.ops.append(f'enum {n} {i}')
         else:
             su = rng.choice(['struct', 'union'])
+            self.tagkind[i] = su
             self.emit(f'{su} {n} {{ char a[{i}]; }};', ind)
-            self.ops.append(f'tag {n} {i} {su}')
+            self.ops.append(f'tag {n} {i}')
 
     def enter(self):
         self.stack.append({'var': set(), 'tag': set()})
@@ -1049,11 +1049,11 @@ class ScopeProg:
         self.stack.pop()
         self.ops.append('leave')
 
-    def uses(self, ind):
-        for n in NAMES:
+    def uses(self, ind, names=NAMES):
+        for n in names:
             self.ops.append(f'use {n}')
             self.ops.append(f'usetag {n}')
-            self.emit(f'@USE {n}@', ind)
+            self.items.append(('use', ind, n))
 
     def body(self, ind, d):
         rng = self.rng
@@ -1066,10 +1066,9 @@ class ScopeProg:
             elif x < 0.8:
                 self.emit('{', ind); self.enter()
                 self.body(ind + 1, d - 1)
-                self.uses(ind + 1)
                 self.leave(); self.emit('}', ind)
             else:
-                # for-init scope: the declaration is visible in the body, gone after the loop
+                # for-init scope: the declaration is visible in the condition and the body, gone after the loop
                 self.enter()
                 n = rng.choice(NAMES)
                 i = self.nid()
@@ -1080,12 +1079,11 @@ class ScopeProg:
                     self.emit(f'for (int {n} = {i}, {once} = 1; {once}; {once} = 0) {{', ind)
                     self.enter()
                     self.body(ind + 1, d - 1)
-                    self.uses(ind + 1)
                     self.leave()
                     self.emit('}', ind)
                 else:
                     self.emit(f'for (int {n} = {i}, {once} = 1; {once}; {once} = 0)', ind)
-                    self.uses(ind + 1)    # non-compound body: the uses are single statements, wrapped below
+                    self.uses(ind + 1, [rng.choice(NAMES)])     # a single (non-compound) statement as the body
                 self.leave()
         self.uses(ind)
 
@@ -1094,158 +1092,112 @@ def scope_program(rng):
     sp.emit('int printf(const char *, ...);', 0)
     for _ in range(rng.choice([0, 1, 2, 3])):
         sp.declare(0)
-    nfn = rng.choice([1, 2])
     calls = []
-    for f in range(nfn):
+    for f in range(rng.choice([1, 2])):
         params = rng.sample(NAMES, rng.choice([0, 1, 2]))
         pid = [sp.nid() for _ in params]
         sp.emit(f"void fn{f}({', '.join('int ' + p for p in params) or 'void'}) {{", 0)
         sp.enter()
-        for p, i in zip(params, pid):
-            sp.ops.append(f'var {p} {i}')
-        # chibicc opens a second scope for the body; a valid program never redeclares a parameter there, so we reserve them
+        for p_, i in zip(params, pid):
+            sp.ops.append(f'var {p_} {i}')
+        # chibicc opens a second scope for the body; a valid program never redeclares a parameter there, so reserve them
         sp.enter()
         sp.stack[-1]['var'] |= set(params)
-        # labels: function scope, own name space; same spelling as the other identifiers
+        # labels: function scope, a name space of their own; spelled like the other identifiers, the same spelling in both functions
         lab = rng.choice(NAMES)
         lid = sp.nid()
-        sp.emit(f'goto {lab};', 1)
-        sp.emit(f'printf("label -1\\n");', 1)
+        sp.items.append(('fn', lid))
+        sp.emit(f'goto {lab}; printf("label -1\\n"); back:;', 1)
         sp.body(1, rng.choice([1, 2, 3]))
-        sp.emit(f'{lab}: printf("label {lid}\\n");', 1)
-        sp.ops.append(f'label {lid}')
+        sp.emit(f'return; {lab}: printf("label {lid}\\n"); goto back;', 1)
         sp.leave(); sp.leave()
         sp.emit('}', 0)
         calls.append(f"fn{f}({', '.join(str(i) for i in pid)});")
     sp.emit('int main(void) { ' + ' '.join(calls) + ' return 0; }', 0)
     return sp
 
-def scope_expected(ctx, sp):
-    """run the history through the scope model; returns the list of expected output lines and the final text"""
-    # labels are resolved per function and jumped over: the `goto` at the top of the body skips everything up to the label.
-    # To keep every use observable the program is emitted with the goto/label pair *around* nothing: see render().
-    text = 'reset\n' + '\n'.join(' '.join(o.split()[:3]) if o.startswith('tag') else o for o in sp.ops if not o.startswith('label')) + '\n'
-    out = ctx.driver('scope', text).splitlines()
-    return out
-
 def render_scope(sp, answers):
-    """substitute each @USE n@ by print statements that fit the kind the model expects"""
-    ans = iter(answers)
-    lines = []
-    expect = []
-    tagkind = {}
-    # replay ops to know struct/union of each tag id
-    for o in sp.ops:
-        w = o.split()
-        if w[0] == 'tag':
-            tagkind[int(w[2])] = w[3]
-    it = iter(answers)
-    use_answers = [a for a in answers if a.startswith('use ') or a.startswith('usetag ')]
+    """substitute every use by print statements that fit the kind of declaration the model says it binds to;
+    returns (source, expected output)"""
+    ua = [a for a in answers if a.startswith('use ') or a.startswith('usetag ')]
     ui = 0
-    for l in sp.text:
-        m = re.match(r'^(\s*)@USE (\w)@$', l)
-        if not m:
-            lines.append(l)
-            continue
-        ind, n = m.group(1), m.group(2)
-        a_var, a_tag = use_answers[ui], use_answers[ui + 1]
-        ui += 2
-        stm = []
-        w = a_var.split()
-        if w[1] == 'obj' or w[1] == 'enum':
-            stm.append(f'printf("{n} %d\\n", (int){n});'); expect.append(f'{n} {w[2]}')
-        elif w[1] == 'typedef':
-            stm.append(f'printf("{n} %d\\n", (int)sizeof({n}));'); expect.append(f'{n} {w[2]}')
-        w = a_tag.split()
-        if w[1] != 'none':
-            k = tagkind[int(w[1])]
-            stm.append(f'printf("tag {n} %d\\n", (int)sizeof({k} {n}));'); expect.append(f'tag {n} {w[1]}')
-        lines.append(ind + '{ ' + ' '.join(stm) + ' }')
+    lines, expect = [], []
+    for it in sp.items:
+        if it[0] == 'raw':
+            lines.append(it[1])
+        elif it[0] == 'fn':
+            expect.append(f'label {it[1]}')
+        else:
+            _, ind, n = it
+            a_var, a_tag = ua[ui].split(), ua[ui + 1].split()
+            ui += 2
+            stm = []
+            if a_var[1] in ('obj', 'enum'):
+                stm.append(f'printf("{n} %d\\n", (int){n});'); expect.append(f'{n} {a_var[2]}')
+            elif a_var[1] == 'typedef':
+                stm.append(f'printf("{n} %d\\n", (int)sizeof({n}));'); expect.append(f'{n} {a_var[2]}')
+            if a_tag[1] != 'none':
+                k = sp.tagkind[int(a_tag[1])]
+                stm.append(f'printf("tag {n} %d\\n", (int)sizeof({k} {n}));'); expect.append(f'tag {n} {a_tag[1]}')
+            lines.append('  ' * ind + '{ ' + ' '.join(stm) + ' }')
     return '\n'.join(lines) + '\n', expect
 
 def scope_batch(ctx, corr, count):
     rng = ctx.rng
     d = os.path.join(ctx.scratch, 'c03s')
     os.makedirs(d, exist_ok=True)
-    for it in range(count):
-        sp = scope_program(rng)
-        answers = scope_expected(ctx, sp)
+    progs = [scope_program(rng) for _ in range(count)]
+    text = ''.join('reset\n' + '\n'.join(sp.ops) + '\n' for sp in progs)
+    out = ctx.driver('scope', text).splitlines()
+    chunks, cur = [], None
+    for l in out:
+        if l == 'reset':
+            cur = []; chunks.append(cur)
+        elif cur is not None:
+            cur.append(l)
+    src = expect = None
+    for it, (sp, answers) in enumerate(zip(progs, chunks)):
         if any(a.startswith('crash') or a == 'bad-op' for a in answers):
             corr.disagreements.append({'kind': 'scope model aborted on a generated history', 'ops': sp.ops, 'answers': answers[-3:]})
             return False
         src, expect = render_scope(sp, answers)
-        # the goto at the top of each function jumps to the label at its end: move the label print before the body instead
-        src = re.sub(r'  goto (\w);\n  printf\("label -1\\n"\);\n', lambda m: f'  goto {m.group(1)}; printf("label -1\\n"); back{m.group(1)}:;\n', src)
-        src = re.sub(r'  (\w): printf\("label (\d+)\\n"\);\n', lambda m: f'  return; {m.group(1)}: printf("label {m.group(2)}\\n"); goto back{m.group(1)};\n', src)
-        # expected label lines come first in each function; rebuild the expectation by function
-        expect_full = []
-        ei = 0
-        per_fn_uses = []
-        # split expected uses by function: count @USE markers per function in sp.text
-        cur = None
-        counts = []
-        ui = 0
-        use_answers = [a for a in answers if a.startswith('use ') or a.startswith('usetag ')]
-        for l in sp.text:
-            if re.match(r'^void fn\d+', l):
-                cur = []
-                counts.append(cur)
-            mm = re.match(r'^\s*@USE (\w)@$', l)
-            if mm and cur is not None:
-                n = mm.group(1)
-                a_var, a_tag = use_answers[ui], use_answers[ui + 1]
-                w = a_var.split()
-                if w[1] != 'none':
-                    cur.append(f'{n} {w[2]}')
-                w = a_tag.split()
-                if w[1] != 'none':
-                    cur.append(f'tag {n} {w[1]}')
-            if mm:
-                ui += 2
-        labels = [o.split()[1] for o in sp.ops if o.startswith('label')]
-        for lab, uses in zip(labels, counts):
-            expect_full.append(f'label {lab}')
-            expect_full += uses
         path = os.path.join(d, f's{it}.c')
         open(path, 'w').write(src)
         corr.evaluations += 1
         corr.count('scope-program')
-        exe_g = os.path.join(d, f's{it}.gcc')
+        exe_g, obj, exe_c = path + '.gcc', path + '.o', path + '.cc'
         rc, o, e = sh(['gcc', '-O0', '-w', '-o', exe_g, path], timeout=60)
         if rc != 0:
             corr.disagreements.append({'kind': 'scope generator produced a program gcc rejects', 'source': src, 'stderr': e[-600:]})
             return False
-        rc, og, e = sh([exe_g], timeout=20)
-        got_g = og.splitlines()
-        if got_g != expect_full:
-            j, x, y = first_diff(got_g, expect_full)
+        got_g = sh([exe_g], timeout=20)[1].splitlines()
+        if got_g != expect:
+            j, x, y = first_diff(got_g, expect)
             corr.disagreements.append({'kind': 'scope model disagrees with gcc (specification error)', 'source': src, 'index': j,
                                        'gcc': x, 'model': y})
             return False
-        obj = os.path.join(d, f's{it}.o')
-        exe_c = os.path.join(d, f's{it}.cc')
         rc, o, e = sh([ctx.cc, '-c', '-o', obj, path], timeout=60)
         if rc != 0:
             corr.violations.append({'what': 'chibicc rejects a valid program (identifier binding)', 'input': src,
-                                    'expected': expect_full, 'got': e[-500:]})
+                                    'expected': expect, 'got': e[-500:]})
             return False
-        rc, o, e = sh(['gcc', '-no-pie', '-o', exe_c, obj], timeout=60)
-        rc, oc, e = sh([exe_c], timeout=20)
-        got_c = oc.splitlines()
-        depthmax = max((l.count('  ') for l in sp.text), default=0)
-        if len(expect_full) >= 6:
+        sh(['gcc', '-no-pie', '-o', exe_c, obj], timeout=60)
+        got_c = sh([exe_c], timeout=20)[1].splitlines()
+        if len(expect) >= 6:
             corr.nontrivial.add('scope:' + hashlib.sha1(src.encode()).hexdigest())
-        if got_c != expect_full:
-            j, x, y = first_diff(got_c, expect_full)
+        corr.count('scope-uses', len(expect))
+        if got_c != expect:
+            j, x, y = first_diff(got_c, expect)
             corr.violations.append({'what': 'an identifier use binds to a declaration other than the innermost visible one',
-                                    'input': src, 'expected': expect_full, 'got': got_c, 'first_difference': [j, y, x]})
+                                    'input': src, 'expected': expect, 'got': got_c, 'first_difference': [j, y, x]})
             return False
         for f in (exe_g, exe_c, obj):
             try:
                 os.remove(f)
             except OSError:
                 pass
-    corr.sample({'scope_program': src.split('\n')[:25], 'bindings': expect_full[:12]})
+    if src:
+        corr.sample({'scope_program': src.split('\n')[:25], 'bindings': expect[:12]})
     return True
 
 
